@@ -653,6 +653,7 @@ func estOf[K comparable](s *sketch[K], k K) uint64 {
 
 // per-entry overrides
 //@ func (*cache).SetExpiresAfter : C12 C03 C01 C20 C07
+//@   counted
 //@   requires cfg(c)
 //@   modifies $MAINT, $EVLOG, ghost_now(), ghost_clockRead(), ghost_tbl(c.hashmap, key).expiresAt
 //@   ensures [C12:override-exact] c.withExpiration && expiresAfter > 0 && pre(ghost_tbl(c.hashmap, key)) != nil && pre(alive(ghost_tbl(c.hashmap, key))) && pre(ghost_expiresAt(ghost_tbl(c.hashmap, key))) > ghost_now() ==> ghost_expiresAt(pre(ghost_tbl(c.hashmap, key))) == satadd(ghost_now(), int64(expiresAfter))
@@ -663,6 +664,7 @@ func estOf[K comparable](s *sketch[K], k K) uint64 {
 //@   ensures [wiring-kept] pre(wired(c)) ==> wired(c)
 
 //@ func (*cache).SetRefreshableAfter : C12 C03 C01 C20
+//@   counted
 //@   requires cfg(c)
 //@   modifies ghost_now(), ghost_clockRead(), ghost_tbl(c.hashmap, key).refreshableAt
 //@   ensures [C12:refresh-override-exact] c.withRefresh && refreshableAfter > 0 && pre(ghost_tbl(c.hashmap, key)) != nil && pre(alive(ghost_tbl(c.hashmap, key))) && pre(live(ghost_tbl(c.hashmap, key), 0)) && (!c.withExpiration || pre(ghost_expiresAt(ghost_tbl(c.hashmap, key))) > ghost_now()) ==> ghost_refreshableAt(pre(ghost_tbl(c.hashmap, key))) == satadd(ghost_now(), int64(refreshableAfter))
@@ -878,6 +880,7 @@ func estOf[K comparable](s *sketch[K], k K) uint64 {
 //@   ensures [C01:absent-zero] !r1 ==> same(r0, zeroValue[V]())
 //@   ensures [C20:one-lookup] ghost_hits()+ghost_misses() == pre(ghost_hits()+ghost_misses()) + 1 && ghost_hits() == pre(ghost_hits()) + pickU64(r1, 1, 0)
 //@   ensures [wiring-kept] pre(wired(c)) ==> wired(c)
+//@   ensures [clock-stable] pre(ghost_clockRead()) ==> ghost_clockRead() && ghost_now() == pre(ghost_now())
 
 //@ func (*cache).GetEntry : C01 C03 C20
 //@   requires cfg(c)
@@ -1331,6 +1334,8 @@ func estOf[K comparable](s *sketch[K], k K) uint64 {
 //@   site Set: requires [C19:expired-not-loaded] !c.cache.withExpiration || (ghost_clockRead() && entry.ExpiresAtNano > ghost_now())
 //@   site Set: requires [C19:bound-respected] size < maximum
 //@   site Set: requires [C19:loads-exactly-the-saved-entry] same(entry.Key, ghost_decoded_Key[K]()) && same(entry.Value, ghost_decoded_Value[V]()) && entry.ExpiresAtNano == ghost_decoded_ExpiresAtNano() && entry.RefreshableAtNano == ghost_decoded_RefreshableAtNano() && entry.Weight == ghost_decoded_Weight()
+//@   site GetIfPresent: requires [C19:warm-up-reads-come-before-the-deadlines-are-restored] ghost_calls_SetExpiresAfter() == iter(ghost_calls_SetExpiresAfter()) && ghost_calls_SetRefreshableAfter() == iter(ghost_calls_SetRefreshableAfter())
+//@   note C19: a read may move the deadline (access-based expiry) - the saved deadline must be the last thing written for an entry
 //@   site SetExpiresAfter: requires [C19:deadline-restored] c.cache.withExpiration && entry.ExpiresAtNano != math.MaxInt64 && ghost_clockRead() && int64(expiresAfter) == entry.ExpiresAtNano-ghost_now() && expiresAfter > 0
 //@   site SetRefreshableAfter: requires [C19:refresh-restored-or-due] c.cache.withRefresh && entry.RefreshableAtNano != math.MaxInt64 && ghost_clockRead() && (entry.RefreshableAtNano > ghost_now() ==> int64(refreshableAfter) == entry.RefreshableAtNano-ghost_now()) && (entry.RefreshableAtNano >= 0 && entry.RefreshableAtNano <= ghost_now() ==> refreshableAfter == 1)
 
@@ -1801,6 +1806,8 @@ func ghost_calls_TryPop() int                                  { panic("ghost") 
 func ghost_last_TryPop_result[K comparable, V any]() *task[K, V] { panic("ghost") }
 
 func ghost_calls_deleteNode() int { panic("ghost") }
+func ghost_calls_SetExpiresAfter() int { panic("ghost") }
+func ghost_calls_SetRefreshableAfter() int { panic("ghost") }
 
 //@ func (*cache).deleteNode : C05 C06 C01 C03
 //@   counted
@@ -1813,6 +1820,7 @@ func ghost_calls_deleteNode() int { panic("ghost") }
 //@   modifies $CACHEFX0, ghost_calls_deleteNode()
 //@   calls-only (*cache).deleteNodeFromMap, (*cache).afterDelete
 //@   site deleteNodeFromMap: requires [C06:a-discarded-entry-is-removed-as-an-invalidation] arg0 == c && arg1 == n && arg2 == nowNano && arg3 == CauseInvalidation
+//@   site afterDelete: requires [C06:the-policies-are-told-about-the-node-that-was-actually-removed] arg0 == c && arg1 == pickNode(ghost_lpCur(c.hashmap) == n, n, nil) && arg2 == nowNano
 //@   ensures [C05:the-policies-are-told-under-the-lock-about-exactly-the-removed-node] ghost_calls_afterDelete() == pre(ghost_calls_afterDelete()) + 1 && ghost_last_afterDelete_alreadyLocked() && ghost_last_afterDelete_nowNano() == nowNano && (ghost_last_afterDelete_deleted[K, V]() == nil || ghost_last_afterDelete_deleted[K, V]() == n)
 //@   ensures [wiring-kept] pre(wired(c)) ==> wired(c)
 
